@@ -8,7 +8,9 @@ Open Scope N_scope.
 (* Event grammar per peer, for every configuration and every history of events in which Connection
    tasks close promptly (no Gate / gated TaskDie): NotificationStreamOpened and
    NotificationStreamClosed alternate strictly, starting with Opened, and no
-   NotificationStreamOpenFailure is reported between an Opened and its Closed
+   NotificationStreamOpenFailure is reported between an Opened and its Closed, and
+   NotificationReceived is delivered only between an Opened and its Closed — also when the
+   notification was still queued in the handle while the stream closed (NotifyDie)
    (`grammar` returns None on the first offending event). *)
 Theorem C11_alternation :
   forall (c : cfg) (ops : list op),
@@ -22,7 +24,7 @@ Print Assumptions C11_alternation.
 Theorem C11_alternation_refuted :
   exists (c : cfg) (ops : list op),
     grammar (fun _ => false) (events (fst (run c init ops))) = None.
-Proof. exists cfg_w, w_slow_close. vm_compute. reflexivity. Qed.
+Proof. exact C11_alternation_refuted_pf. Qed.
 Print Assumptions C11_alternation_refuted.
 
 (* A stream is reported opened only in a step that starts with the inbound substream accepted
@@ -54,17 +56,285 @@ Theorem C11_closed_on_user_close :
 Proof. exact closed_on_user_close_prompt. Qed.
 Print Assumptions C11_closed_on_user_close.
 
+(* ---- no stuck states ----
+   The run function stops at the first stuck step (a debug_assert!(false) / Poisoned survivor of the
+   Rust code); for every configuration and every history of events it never does. The environment
+   assumptions are the guards of Model.main_handler, stated explicitly as the predicate `enabled`
+   below: an event that is not enabled is not delivered. *)
+Theorem C11_no_stuck :
+  forall (c : cfg) (ops : list op), snd (run c init ops) = true.
+Proof. exact C11_no_stuck_pf. Qed.
+Print Assumptions C11_no_stuck.
+
+(* the same with the environment predicate on the event sequence spelled out *)
+Theorem C11_no_stuck_feasible :
+  forall (c : cfg) (ops : list op), feasible c init ops = true -> snd (run c init ops) = true.
+Proof. exact C11_no_stuck_feasible_pf. Qed.
+Print Assumptions C11_no_stuck_feasible.
+
+Theorem C11_guards_are_the_environment :
+  forall (c : cfg) (s : st) (o : op), enabled s o = false -> main_handler c s o = Some (s, [], []).
+Proof. exact disabled_noop. Qed.
+Print Assumptions C11_guards_are_the_environment.
+
+(* without the guards the handlers do get stuck: a second ConnectionEstablished for a connected peer *)
+Theorem C11_no_stuck_needs_environment_refuted :
+  exists (c : cfg) (ops : list op) (p : peer),
+    conn (last_state c ops) p = true /\ on_established c (last_state c ops) p = None.
+Proof. exact C11_no_stuck_needs_environment_refuted_pf. Qed.
+Print Assumptions C11_no_stuck_needs_environment_refuted.
+
+(* ---- isolation ----
+   A step for peer p leaves every other peer's state, handshake-service membership, handle gate
+   entries (peers, pending validation), connection state, newest task, and requests in flight
+   untouched, and reports events / makes service calls only about p. (For those requests B1 of the
+   invariant gives pending_outbound = Some q again in the new state.) *)
+Theorem C11_isolation :
+  forall (c : cfg) (s : st) (o : op) (s' : st) (ev : list uev) (cl : list call),
+    reachable c s -> step c s o = Some (s', ev, cl) -> iso s s' (op_peer o) ev cl.
+Proof. exact C11_isolation_pf. Qed.
+Print Assumptions C11_isolation.
+
+Theorem C11_runs_are_reachable :
+  forall (c : cfg) (ops : list op) (x : st * list uev * list call),
+    In x (fst (run c init ops)) -> reachable c (fst (fst x)).
+Proof. exact C11_runs_are_reachable_pf. Qed.
+Print Assumptions C11_runs_are_reachable.
+
+(* ---- inbound streams only after an accept ----
+   The accepted-inbound state (handshake being sent / sent) arises, for any peer and in any state,
+   only from the user's Accept of a substream under validation or from the auto-accept branch
+   (auto_accept configured and an outbound substream already initiated). *)
+Theorem C11_accepted_only_by_accept :
+  forall (c : cfg) (s : st) (o : op) (s' : st) (ev : list uev) (cl : list call) (q : peer),
+    step c s o = Some (s', ev, cl) -> acc_inb (ps s' q) = true -> acc_inb (ps s q) = false ->
+    is_accept c s o q = true.
+Proof. exact accept_step. Qed.
+Print Assumptions C11_accepted_only_by_accept.
+
+(* Every NotificationStreamOpened in every history is preceded by such an accepting step for the peer. *)
+Theorem C11_inbound_needs_accept :
+  forall (c : cfg) (pre : list op) (s : st) (o : op) (s' : st) (ev : list uev) (cl : list call)
+         (p : peer) (d : dir),
+    exec c init pre = Some s -> step c s o = Some (s', ev, cl) -> In (UOpened p d) ev ->
+    exists pre1 a pre2 s1,
+      pre = pre1 ++ a :: pre2 /\ exec c init pre1 = Some s1 /\ is_accept c s1 a p = true.
+Proof. exact inbound_needs_accept. Qed.
+Print Assumptions C11_inbound_needs_accept.
+
+(* ---- the open-request ledger ----
+   `ledger` runs a history and keeps, per peer, whether an open request the protocol took up is still
+   owed an answer (owed_next: cleared by Opened / OpenFailure for the peer only). Outside finding
+   classes 2 and 3 (ledger_env), whoever is owed an answer has the outbound half in progress and the
+   environment still owes the protocol the event that will produce the answer (obligation): at
+   quiescence nothing is owed. *)
+Theorem C11_open_answered :
+  forall (c : cfg) (ops : list op) (s : st) (owed : peer -> bool),
+    ledger_env c init ops = true -> ledger c init (fun _ => false) ops = Some (s, owed) ->
+    forall p, owed p = true -> in_progress (ps s p) = true /\ obligation s p = true.
+Proof. exact open_answered. Qed.
+Print Assumptions C11_open_answered.
+
+Theorem C11_quiescent_nothing_owed :
+  forall (c : cfg) (ops : list op) (s : st) (owed : peer -> bool) (p : peer),
+    ledger_env c init ops = true -> ledger c init (fun _ => false) ops = Some (s, owed) ->
+    obligation s p = false -> owed p = false.
+Proof. exact C11_quiescent_nothing_owed_pf. Qed.
+Print Assumptions C11_quiescent_nothing_owed.
+
+(* never two answers: one step reports at most one Opened / OpenFailure per peer, and an answer
+   clears the ledger entry (owed_next), in every state *)
+Theorem C11_at_most_one_answer :
+  forall (c : cfg) (s : st) (o : op) (s' : st) (ev : list uev) (cl : list call) (q : peer),
+    step c s o = Some (s', ev, cl) -> (length (answers q ev) <= 1)%nat.
+Proof. exact C11_at_most_one_answer_pf. Qed.
+Print Assumptions C11_at_most_one_answer.
+
 (* Finding class 2: after the outbound substream of an accepted inbound stream fails to open, the
    failed id stays in pending_open; the next open request adopts it although the transport owes
-   nothing for it (spend = []), so the request is never answered. *)
+   nothing for it: the request is owed an answer that nothing will ever produce. *)
 Theorem C11_open_answered_refuted :
-  exists (c : cfg) (ops : list op),
-    ps (last_state c ops) 0 = Some (OutInit 0) /\ spend (last_state c ops) = [] /\
-    last ops (Timer 0) = CmdOpen 0.
-Proof. exists cfg_w0, w_failed_sid. vm_compute. repeat split. Qed.
+  exists (c : cfg) (ops : list op) (s : st) (owed : peer -> bool),
+    ledger c init (fun _ => false) ops = Some (s, owed) /\ owed 0 = true /\ obligation s 0 = false.
+Proof. exact C11_open_answered_refuted_pf. Qed.
 Print Assumptions C11_open_answered_refuted.
 
+(* Finding class 3: the user's Reject of the peer's inbound substream while the user's own open
+   request for that peer is in progress drops the request without an answer (pinned by the
+   integration test both_nodes_open_substream_one_rejects_substreams). *)
+Theorem C11_open_answered_class3_refuted :
+  exists (c : cfg) (ops : list op) (s : st) (owed : peer -> bool),
+    ledger c init (fun _ => false) ops = Some (s, owed) /\ owed 0 = true /\ in_progress (ps s 0) = false.
+Proof. exact C11_open_answered_class3_refuted_pf. Qed.
+Print Assumptions C11_open_answered_class3_refuted.
+
+(* ---- the sending side ----
+   `CWire q k m`: frame m written on the outbound substream of Connection task k (stream period k) of
+   peer q; `CRet p code`: what the send call returned. In every reachable state a frame reaches the wire
+   only in a send operation, with that very message, through the sink the operation resolves to
+   (send_sink), written by the running task that owns that sink, which is a task of the peer. Through the
+   handle this needs the gate of the peer open (the user saw Opened and not yet Closed) and it is the
+   period whose sink the handle holds; a sink the user kept feeds only the period it was cloned from:
+   nothing is ever delivered into another stream period. *)
+Theorem C11_send_gate :
+  forall (c : cfg) (s : st) (o : op) (s' : st) (ev : list uev) (cl : list call) (q : peer) (k m : N),
+    reachable c s -> step c s o = Some (s', ev, cl) -> In (CWire q k m) cl ->
+    send_sink s o = Some (q, k, m) /\ running s k = true /\
+    (exists t, find_task k (tasks s) = Some t /\ t_peer t = q) /\
+    match o with
+    | SendSync _ _ | SendAsync _ _ => hopen s q = true /\ hsink s q = Some k
+    | _ => usink s q = Some k
+    end.
+Proof. exact send_gate. Qed.
+Print Assumptions C11_send_gate.
+
+(* before Opened, after Closed and for a peer never opened the handle sends nothing: the synchronous
+   call returns Ok and is a no-op, the asynchronous one returns PeerDoesntExist *)
+Theorem C11_send_gate_closed :
+  forall (c : cfg) (s : st) (p : peer) (m : N) (a : bool) (s' : st) (ev : list uev) (cl : list call),
+    reachable c s -> hopen s p = false ->
+    step c s (if a then SendAsync p m else SendSync p m) = Some (s', ev, cl) ->
+    cl = [CRet p (if a then R_NOPEER else R_OK)] /\ ev = [] /\ ps s' = ps s /\ tasks s' = tasks s.
+Proof. exact send_gate_closed. Qed.
+Print Assumptions C11_send_gate_closed.
+
+(* a kept NotificationSink whose stream period is over only reports errors *)
+Theorem C11_stale_sink_errors :
+  forall (c : cfg) (s : st) (p : peer) (k m : N) (a : bool) (s' : st) (ev : list uev) (cl : list call),
+    usink s p = Some k -> find_task k (tasks s) = None ->
+    step c s (if a then SinkAsync p m else SinkSync p m) = Some (s', ev, cl) ->
+    cl = [CRet p (if a then R_NOPEER else R_NOCONN)] /\ ev = [] /\ ps s' = ps s /\ tasks s' = tasks s.
+Proof. exact stale_sink_errors. Qed.
+Print Assumptions C11_stale_sink_errors.
+
+(* ---- the 5 s negotiation timers ----
+   `timers` is the FIFO of armed timers (all have the same duration, so arming order is expiry order).
+   Only a handshake event of the peer arms a timer, only `Timer p` takes one away, exactly one, and a
+   timer is never disarmed: every armed timer fires once. *)
+Theorem C11_timers_fire_once :
+  forall (c : cfg) (s : st) (o : op) (s' : st) (ev : list uev) (cl : list call),
+    step c s o = Some (s', ev, cl) -> timers_spec s o s'.
+Proof. exact timers_step. Qed.
+Print Assumptions C11_timers_fire_once.
+
+(* an attempt that waits for the remote's substream (outbound half open, no inbound substream yet) always
+   has a timer armed: the wait is bounded *)
+Theorem C11_waiting_attempt_has_timer :
+  forall (c : cfg) (s : st) (p : peer),
+    reachable c s -> waiting (ps s p) = true -> existsb (N.eqb p) (timers s) = true.
+Proof. intros c s p R. apply (WT_reachable c s R). Qed.
+Print Assumptions C11_waiting_attempt_has_timer.
+
+(* the outcome of a fired timer: nothing at all unless the peer is in that waiting state (then
+   on_timer: OpenFailure(Rejected), force_close, PeerState::Closed) *)
+Theorem C11_timer_only_cancels_waiting :
+  forall (c : cfg) (s : st) (p : peer) (s' : st) (ev : list uev) (cl : list call),
+    waiting (ps s p) = false -> step c s (Timer p) = Some (s', ev, cl) ->
+    ev = [] /\ cl = [] /\ ps s' = ps s /\ tasks s' = tasks s /\ hopen s' = hopen s.
+Proof. exact timer_only_cancels_waiting. Qed.
+Print Assumptions C11_timer_only_cancels_waiting.
+
+(* in particular no timer, however old, touches an open stream *)
+Theorem C11_no_stale_timer_kill :
+  forall (c : cfg) (s : st) (p : peer) (k : N) (s' : st) (ev : list uev) (cl : list call),
+    ps s p = Some (Open k) -> step c s (Timer p) = Some (s', ev, cl) ->
+    ev = [] /\ cl = [] /\ ps s' = ps s /\ tasks s' = tasks s /\ hopen s' = hopen s.
+Proof. exact no_stale_timer_kill. Qed.
+Print Assumptions C11_no_stale_timer_kill.
+
+(* Observation: a timer armed for a finished attempt is still armed when the next attempt of the same
+   peer reaches the waiting state, and cancels it early (OpenFailure, force_close of the connection)
+   while that attempt's own timer stays armed. Not a violation of the property text (the request is
+   answered), reported with the findings. *)
+Theorem C11_stale_timer_cancels_newer_attempt_refuted :
+  exists s1 s2 s3 ev cl,
+    exec cfg_wt init w_stale_pre = Some s1 /\ ps s1 0 = Some (Closed None) /\ timers s1 = [0] /\
+    exec cfg_wt s1 w_stale_post = Some s2 /\ waiting (ps s2 0) = true /\ timers s2 = [0; 0] /\
+    step cfg_wt s2 (Timer 0) = Some (s3, ev, cl) /\ ev = [UFail 0 E_REJECTED] /\ cl = [CForce 0] /\
+    timers s3 = [0].
+Proof. exact C11_stale_timer_cancels_newer_attempt_refuted_pf. Qed.
+Print Assumptions C11_stale_timer_cancels_newer_attempt_refuted.
+
+(* ---- the bounded user event channel, a user who polls late ----
+   `lstep` / `lrun` (Model.v): the events queue up in a channel of capacity cap; the loop parks inside a
+   handler while its event has no room; waiting producers are served in arrival order; `LPoll` is one
+   `handle.next()`. For every capacity >= 0 and every schedule: the loop is never stuck, *)
+Theorem C11_lazy_no_stuck :
+  forall (c : cfg) (cap : nat) (gs : list lop), snd (lrun c cap linit gs) = true.
+Proof. exact C11_lazy_no_stuck_pf. Qed.
+Print Assumptions C11_lazy_no_stuck.
+
+(* nothing is lost and nothing is reordered: what the user was handed from the queue, followed by what is
+   still queued (in the channel or with a waiting producer), is exactly what was emitted, in order; *)
+Theorem C11_event_channel_no_loss :
+  forall (c : cfg) (cap : nat) (gs : list lop),
+    ltaken_run c cap linit gs ++ lq (lfinal c cap linit gs) = lemitted_run c cap linit gs.
+Proof. exact C11_event_channel_no_loss_pf. Qed.
+Print Assumptions C11_event_channel_no_loss.
+
+(* what a step takes from the queue is what `handle.next()` returns, and a poll always gets the oldest
+   queued event, whatever the capacity *)
+Theorem C11_event_channel_step :
+  forall (c : cfg) (cap : nat) (l : lst) (g : lop) (l' : lst) (ev : list uev) (cl : list call),
+    lstep c cap l g = Some (l', ev, cl) ->
+    ltaken l g ++ lq l' = lq l ++ lemitted c cap l g /\ (ltaken l g <> [] -> ev = ltaken l g).
+Proof. exact lstep_fifo. Qed.
+Print Assumptions C11_event_channel_step.
+
+Theorem C11_poll_delivers_oldest :
+  forall (c : cfg) (cap : nat) (l : lst) (e : uev) (rest : list uev),
+    lq l = e :: rest -> exists l' cl, lstep c cap l LPoll = Some (l', [e], cl).
+Proof. exact lpoll_delivers. Qed.
+Print Assumptions C11_poll_delivers_oldest.
+
+(* the capacity only delays: two capacities, the same schedule, no event scheduled while the loop is
+   parked: same protocol states, same queue, same deliveries at every step *)
+Theorem C11_capacity_only_delays :
+  forall (c : cfg) (cap1 cap2 : nat) (gs : list lop),
+    never_blocked c cap1 linit gs = true -> never_blocked c cap2 linit gs = true ->
+    map (fun x => (lcore (fst (fst x)), snd (fst x))) (fst (lrun c cap1 linit gs)) =
+    map (fun x => (lcore (fst (fst x)), snd (fst x))) (fst (lrun c cap2 linit gs)) /\
+    snd (lrun c cap1 linit gs) = snd (lrun c cap2 linit gs).
+Proof. exact C11_capacity_only_delays_pf. Qed.
+Print Assumptions C11_capacity_only_delays.
+
+Example C11_parked_handler_resumes :
+  map (fun x => (parked 1 (fst (fst x)), snd (fst x), snd x)) (fst (lrun cfg_w0 1 linit w_parked)) =
+  [(false, [], []); (false, [], []); (false, [], []); (false, [], []);
+   (false, [], [COpen 0 0]); (false, [], []); (false, [], []);
+   (true, [], []);                                  (* the timer arm parks on OpenFailure *)
+   (true, [], []);                                  (* nothing else is handled meanwhile *)
+   (false, [UValidate 1], [CForce 0]);              (* the poll makes room: the handler resumes *)
+   (false, [UFail 0 E_REJECTED], [])].
+Proof. vm_compute. reflexivity. Qed.
+
 (* non-vacuity: a prompt history that opens a stream and closes it *)
+Example C11_notification_dropped_after_close :
+  events (fst (run cfg_w init (open_by_user ++ [Notify 0; NotifyDie 0 false]))) =
+  [UOpened 0 DOut; UNotif 0; UClosed 0].
+Proof. vm_compute. reflexivity. Qed.
+
+(* the replaced-validation defect (fix: commit) stays fixed: the second ValidateSubstream of this
+   history replaces an unanswered one at the handle, and the user's open request is still in progress
+   with the handshake service owing the next event *)
+Example C11_replaced_validation_keeps_request :
+  match ledger cfg_w0 init (fun _ => false) w_drop with
+  | Some (s, owed) => (owed 0, in_progress (ps s 0), obligation s 0)
+  | None => (false, false, false)
+  end = (true, true, true).
+Proof. exact w_drop_check. Qed.
+
+Example C11_ledger_env_nonvacuous :
+  ledger_env cfg_w init (open_by_user ++ [CmdClose 0]) = true /\ feasible cfg_w init open_by_user = true.
+Proof. vm_compute. split; reflexivity. Qed.
+
+Example C11_send_delivered_in_its_period :
+  snd (last (fst (run cfg_w init (open_by_user ++ [SendSync 0 7; CmdClose 0; SendSync 0 8; SendAsync 0 9])))
+            (init, [], [])) = [CRet 0 R_NOPEER] /\
+  flat_map (fun x => snd x) (fst (run cfg_w init (open_by_user ++ [SendSync 0 7; CmdClose 0; SendSync 0 8]))) =
+  [COpen 0 0; CRet 0 R_OK; CWire 0 0 7; CRet 0 R_OK].
+Proof. vm_compute. split; reflexivity. Qed.
+
 Example C11_open_close_run :
   forallb prompt_op (open_by_user ++ [CmdClose 0]) = true /\
   events (fst (run cfg_w init (open_by_user ++ [CmdClose 0]))) = [UOpened 0 DOut; UClosed 0].
